@@ -23,7 +23,7 @@ func init() {
 			{"C18.sole-constructor", "Node* values are built only by ArchiveDecoder.Next", 4, c18SoleConstructor},
 			{"C18.join-root", "LocalFS touches only filepath.Join(fs.Root, n.Name)", 15, c18JoinRoot},
 			{"C18.lstat-dir", "CreateDir refuses an existing non-directory (lstat) before doing anything", 2, c18LstatDir},
-			{"C18.unlink-before-create", "files, symlinks and devices are created only after what was under the name has been removed", 3, c18UnlinkBeforeCreate},
+			{"C18.unlink-before-create", "files, symlinks and devices are created only after what was under the name has been removed; a removal that failed ends the creation", 3, c18UnlinkBeforeCreate},
 			{"C18.single-root", "only the first entry of an archive may come without a filename", 1, c18SingleRoot},
 			{"C18.symlink-nofollow", "a symlink entry's metadata is applied to the link, never through it", 2, c18SymlinkNoFollow},
 		},
@@ -652,6 +652,47 @@ func c18UnlinkBeforeCreate(c *Ctx) {
 		}
 		if found == 0 {
 			c.bad(key+":create", fn.Pos(), "no creating call found")
+		}
+		// a removal that failed (with anything but "not there") leaves what was under the name in
+		// place: on such a path the creating call is not reached.  Path rule; new helpers around
+		// the removal ("unlinkIfExists") are explored in place, so an error swallowed there counts.
+		var bad []string
+		removals := 0
+		h := &Hooks{MaxVisits: 2, MaxPaths: 100000}
+		h.Fork = func(st *State, call *ssa.Call) []map[int]Val {
+			if !isRemove(callee(call)) {
+				return nil
+			}
+			removals++
+			ei := errResultIndex(call)
+			return []map[int]Val{{ei: {N: NNil, Class: ClsNil, Sym: "removed:ok"}}, {ei: {N: NNon, Class: ClsOther, Sym: "removed:failed"}}}
+		}
+		h.Call = func(st *State, call *ssa.Call) map[int]Val {
+			last := ""
+			for _, e := range st.Events {
+				if e.Kind == "outcome:removed" {
+					last = e.Arg
+				}
+			}
+			if last != "failed" {
+				return nil
+			}
+			if callee(call) == "os.IsNotExist" {
+				return map[int]Val{0: {B: BFalse}} // the failure that is not "nothing there"
+			}
+			if _, isC := isCreate(call); isC {
+				bad = append(bad, fmt.Sprintf("%s at %s is reached after the removal of the destination failed", callee(call), c.pos(call.Pos())))
+			}
+			return nil
+		}
+		Explore(fn, fn.Blocks[0], 0, nil, NewState(), h)
+		c.paths += h.Paths
+		if removals > 0 {
+			if len(bad) > 0 {
+				c.bad(key+":removal-failed", fn.Pos(), "%s: what could not be removed (a symlink planted by an earlier entry in a directory that does not allow the removal) is opened through, or the entry is reported as extracted", bad[0])
+			} else {
+				c.ok(key+":removal-failed", fn.Pos(), "a failed removal (other than not-exist) ends the creation")
+			}
 		}
 	}
 }
